@@ -1,4 +1,4 @@
 SPECIFICATION Spec
-CONSTANTS MaxFeat = 1 MaxRows = 2 MaxProt = 2 Mut_EndOffByOne = FALSE Mut_KeepDD = FALSE Mut_ValidSkipsDD = TRUE
+CONSTANTS ProtSep = ":" MaxFeat = 1 MaxRows = 2 MaxProt = 2 Mut_EndOffByOne = FALSE Mut_KeepDD = FALSE Mut_ValidSkipsDD = TRUE
 INVARIANT ValidIffDef
 CHECK_DEADLOCK FALSE
